@@ -92,7 +92,10 @@ def _work(shard):
         return {"builderror": (e.kind, e.msg, e.config), "shard": shard}
     except Exception:
         return {"crash": traceback.format_exc(), "shard": shard}
-    return ctx.pack()
+    res = ctx.pack()
+    for f in res["failures"]:
+        f["shard"] = shard
+    return res
 
 
 def load_known():
@@ -209,7 +212,34 @@ def run(module, tier, seed, nproc=16):
         else:
             violations.append(f)
     if nondet and not violations and not known_hits:
-        # nothing that failed during the exploration fails again when replayed alone: the harness, not the library, is in doubt
+        # Nothing that failed during the exploration fails again when replayed alone.  Before the harness is blamed: the failing cases may
+        # depend on the CALLS MADE BEFORE THEM in their shard (state the library keeps between calls - a cache, a memo).  The shard is a
+        # deterministic call sequence; if it fails with the same signatures twice more, each time alone in a fresh process, the history
+        # dependence is the library's and the shard is the replayable counterexample.
+        ctxmp = multiprocessing.get_context("fork")
+        tried = []
+        for f in merged.failures:
+            sh = f.get("shard")
+            if sh is None or sh in tried:
+                continue
+            tried.append(sh)
+            if len(tried) > 2:
+                break
+            sigs = []
+            for _ in range(2):
+                r = _shard_run(module, sh, ctxmp, (prop, tier, seed, time.time() + 600))
+                sigs.append(sorted({g["sig"] for g in r["failures"]}) if r and "failures" in r else None)
+            if sigs[0] and sigs[0] == sigs[1]:
+                os.makedirs(os.path.join(OUTDIR, "replays"), exist_ok=True)
+                path = os.path.join(OUTDIR, "replays", "%s-history.json" % prop)
+                case = {"sub": "__shard__", "shard": sh}
+                with open(path, "w") as fh:
+                    json.dump({"property": prop, "tier": tier, "seed": seed, "signature": "history:" + sigs[0][0], "message": f["msg"], "case": case}, fh, indent=1)
+                write_evidence(prop, tier, seed, module.LEVEL, {"evaluations": merged.evaluations, "distinct_nontrivial": merged.nontrivial, "rule": module.RULE, "samples": [case],
+                               "exhaustive": False, "caps_hit": ["history-dependent failure"], "tree_hash": build.tree_hash()}, module.ASSUMPTIONS, time.time() - t0, 1)
+                print("VIOLATION property=%s replay=%s  # history: %s - fails inside the call sequence of shard %s (twice more, alone in a fresh process) but not when the case is run on its own: "
+                      "the result depends on earlier calls" % (prop, path, f["msg"][:200], json.dumps(sh)[:200]))
+                return 1
         return 2
     if nondet:
         # some failures did not reproduce (their symptom depends on memory the call should not have read, say) while others fail
@@ -275,6 +305,19 @@ def _fate(module, shard, ctxmp, args, timeout=HANG_LIMIT):
 
 def _dies(module, shard, ctxmp, args):
     return _fate(module, shard, ctxmp, args) != "ok"
+
+
+def _shard_run(module, shard, ctxmp, args, timeout=HANG_LIMIT):
+    """the packed result of one shard run alone in a fresh process (None if it dies or hangs)"""
+    import concurrent.futures
+    with concurrent.futures.ProcessPoolExecutor(max_workers=1, mp_context=ctxmp, initializer=_init_worker, initargs=(module.__name__, args)) as one:
+        try:
+            return one.submit(_work, shard).result(timeout=timeout)
+        except concurrent.futures.TimeoutError:
+            _kill_pool(one)
+            return None
+        except Exception:
+            return None
 
 
 def _worker_hung(module, main, stuck, ctxmp, t0):
@@ -357,7 +400,10 @@ def _default_builds():
 def replay_file(module, path):
     data = json.load(open(path))
     ctx = Ctx(module.PROPERTY, data.get("tier", "quick"), data.get("seed", 0), time.time() + 3600)
-    if data["case"].get("sub") == "__hang__":
+    if data["case"].get("sub") == "__shard__":
+        r = _shard_run(module, data["case"]["shard"], multiprocessing.get_context("fork"), (module.PROPERTY, ctx.tier, ctx.seed, time.time() + 600))
+        msgs = [g["msg"] for g in r["failures"]][:3] if r and r.get("failures") else []
+    elif data["case"].get("sub") == "__hang__":
         fate = _fate(module, data["case"]["shard"], multiprocessing.get_context("fork"), (module.PROPERTY, ctx.tier, ctx.seed, time.time() + 300))
         msgs = ["a call made while enumerating this shard does not return"] if fate == "hung" else (["enumerating this shard kills the process"] if fate == "died" else [])
     elif data["case"].get("sub") == "__crash__":
